@@ -1,6 +1,19 @@
 """Which harnesses decide which property, in which tier, with which resource caps.
 Bounds are stated next to each harness and copied into the evidence file."""
+import os
+import sys
+
 from kani_run import Harness as H
+
+sys.path.insert(0, os.path.join(os.path.dirname(os.path.dirname(os.path.abspath(__file__))), "mir2smt"))
+
+
+def _engine_m(select):
+    def run(tier, logdir):
+        import formulas
+        res, _summary = formulas.main(tier, logdir, select)
+        return res
+    return run
 
 COMMON_ASSUMPTIONS = [
     "sequentially consistent memory: Ordering arguments are ignored by the encoding (CBMC/Kani model atomics as "
@@ -92,18 +105,20 @@ PROPS["C16"] = {
           what="heap-backed Queue<Tracked>", bounds="unwind 9; CAP 2, 4 steps"),
         H("c16::c16_queue_get", covers=1, timeout=900, mem_gb=4,
           what="FixedSizeQueue<u8,3>::get(i) for every fill level / ring phase", bounds="unwind 8; 5 steps"),
-        H("c16::c16_fixed_slotmap_history", covers=3, timeout=1500, mem_gb=8, tiers=("quick",),
+        H("c16::c16_fixed_slotmap_history", covers=3, timeout=7200, mem_gb=30, tiers=("thorough",),
           what="FixedSizeSlotMap<Tracked,2>: insert/insert_at/remove/get/contains/next_free_key/iteration vs model; drops",
-          bounds="unwind 9; CAP 2, 4 steps, keys 0..=CAP"),
+          bounds="unwind 9; CAP 2, 3 steps, keys 0..=CAP"),
         H("c16::c16_owning_slotmap_history", covers=3, timeout=1500, mem_gb=8, tiers=("quick",),
-          what="heap-backed SlotMap<Tracked>(2), same obligations", bounds="unwind 9; CAP 2, 4 steps"),
-        H("c16::c16_fixed_slotmap_history_deep", covers=3, timeout=5400, mem_gb=14, tiers=("thorough",),
-          what="FixedSizeSlotMap<Tracked,3>, 5 steps", bounds="unwind 9; CAP 3, 5 steps"),
+          what="heap-backed SlotMap<Tracked>(2), same obligations", bounds="unwind 9; CAP 2, 3 steps"),
+        H("c16::c16_owning_slotmap_history_deep", covers=3, timeout=7200, mem_gb=24, tiers=("thorough",),
+          what="heap-backed SlotMap<Tracked>(2), 5 steps", bounds="unwind 9; CAP 2, 5 steps"),
         H("c16::c16_flatmap_history", covers=2, timeout=1500, mem_gb=8, tiers=("quick",),
-          what="FixedSizeFlatMap<u8,Tracked,2>: insert (duplicate / full errors)/remove/get/get_ref/contains/list_keys vs model",
-          bounds="unwind 9; CAP 2, 4 steps, 3 keys"),
-        H("c16::c16_flatmap_history_deep", covers=2, timeout=5400, mem_gb=14, tiers=("thorough",),
-          what="FixedSizeFlatMap, 5 steps", bounds="unwind 9; CAP 2, 5 steps"),
+          what="heap-backed FlatMap<u8,Tracked>(2): insert (duplicate / full errors)/remove/get/get_ref/contains/list_keys vs model",
+          bounds="unwind 9; CAP 2, 3 steps, 3 keys"),
+        H("c16::c16_flatmap_history_deep", covers=2, timeout=7200, mem_gb=24, tiers=("thorough",),
+          what="FlatMap, 5 steps", bounds="unwind 9; CAP 2, 5 steps"),
+        H("c16::c16_fixed_flatmap_history", covers=2, timeout=7200, mem_gb=30, tiers=("thorough",),
+          what="FixedSizeFlatMap<u8,Tracked,2> (relocatable flavour), 3 steps", bounds="unwind 9; CAP 2, 3 steps"),
         H("c16::c16_string_history_grow", covers=2, timeout=1500, mem_gb=8, tiers=("quick",),
           what="StaticString<3>: push/insert/insert_bytes/pop over the full byte range vs model; NUL termination",
           bounds="unwind 9; CAP 3, 4 steps"),
@@ -224,7 +239,9 @@ for (n, ty, k) in [("index_queue", "FixedSizeIndexQueue<2>", 3), ("overflow_queu
                    ("relocatable_vec", "RelocatableVec<u8> + data in one block", 3), ("queue", "FixedSizeQueue<u8,2>", 3),
                    ("string", "StaticString<3>", 3), ("slot_map", "FixedSizeSlotMap<u8,2>", 3),
                    ("flat_map", "FixedSizeFlatMap<u8,u8,2>", 3)]:
-    _c14.append(H("c14::c14_" + n, covers=1, timeout=1800, mem_gb=6,
+    heavy = n in ("slot_map", "flat_map")
+    _c14.append(H("c14::c14_" + n, covers=1, timeout=7200 if heavy else 1800, mem_gb=30 if heavy else 8,
+                  tiers=("thorough",) if heavy else ("quick", "thorough"),
                   what="%s: %d symbolic operations, byte-copy to a fresh block at a symbolic point of the history "
                        "(old block scribbled and freed), lock-step comparison with a twin that stayed" % (ty, k),
                   bounds="unwind 8-12; %d operations, relocation point symbolic" % k))
@@ -263,7 +280,7 @@ PROPS["C09"] = {
           bounds="unwind 8"),
         H("c09::c09_robust_history_cap2", covers=4, timeout=1500, mem_gb=6,
           what="StaticRobustUniqueIndexSet<2>: acquire/release(owner, mode)/recover(dead owner) history vs owner model",
-          bounds="unwind 8; 4 steps, 2 owners"),
+          bounds="unwind 8; 3 steps (add/remove), 2 owners"),
         H("c09::c09_robust_history_cap3", covers=4, timeout=5400, mem_gb=12, tiers=("thorough",),
           what="robust set, capacity 3", bounds="unwind 8; 5 steps"),
         H("c09::sched::c09_s_uis_race_cap2", crate="hs", covers=2, timeout=1800, mem_gb=10, tiers=("quick",),
@@ -330,6 +347,9 @@ PROPS["C15"]["harnesses"] += [
     H("cal::c15cal::c15_shm_pool_history", features=CAL, covers=3, timeout=1800, mem_gb=8,
       what="cal shm PoolAllocator through segment-relative offsets: 4 symbolic allocate/deallocate steps; in-bounds, "
            "aligned, disjoint, exact failures, reuse", bounds="unwind 8; segment<=48B, bucket size 1..=12 align<=8"),
+    H("cal::c15cal::c15_shm_pool_grow", features=CAL, covers=1, timeout=1800, mem_gb=8,
+      what="cal shm PoolAllocator grow inside the bucket: same offset, content kept / moved to the back (overlapping "
+           "moves included), neighbour untouched, documented errors", bounds="unwind 14; bucket (12,4), sizes 1..=14"),
     H("cal::c15cal::c15_shm_pool_resize_hint", features=CAL, covers=1, timeout=1500, mem_gb=6,
       what="resize_hint for Static/BestFit/PowerOfTwo: hinted layout admits the request, never shrinks, Static "
            "changes nothing", bounds="bucket size<=16 align<=8, request size<=40 align<=32, 0-2 used buckets"),
@@ -389,6 +409,16 @@ _conn_data = [
       what="buffer 2, borrow 1, 6 steps, overflow", bounds="unwind 9"),
     H("cal::conn::conn_data_history_no_overflow_deep", features=CAL, covers=2, timeout=10800, mem_gb=40,
       tiers=("thorough",), what="buffer 2, borrow 2, 6 steps, no overflow", bounds="unwind 9"),
+]
+_conn_data += [
+    H("cal::conn::conn_release_worst_case_1_1", features=CAL, covers=0, timeout=3600, mem_gb=28,
+      what="directed worst case for the completion-queue sizing (buffer + max_borrow + 1 offsets in flight between "
+           "two reclaim rounds of the sender): every release succeeds, every offset comes back once",
+      bounds="unwind 8; buffer 1, borrow 1"),
+    H("cal::conn::conn_release_worst_case_2_1", features=CAL, covers=0, timeout=7200, mem_gb=36, tiers=("thorough",),
+      what="same, buffer 2, borrow 1", bounds="unwind 8"),
+    H("cal::conn::conn_release_worst_case_1_2", features=CAL, covers=0, timeout=7200, mem_gb=36, tiers=("thorough",),
+      what="same, buffer 1, borrow 2", bounds="unwind 8"),
 ]
 PROPS["C11"] = {
     "bounds": "channel state word for all request ids <= 2^62 and every reachable shape (closed / owned / owned+hint), "
@@ -476,6 +506,31 @@ PROPS["C08"] = {
 }
 PROPS["C03"]["harnesses"] += _conn_data
 
+
+PROPS["C10"] = {
+    "bounds": "capacity 2, 4 symbolic add/remove/recover operations without snapshots; capacity 1 snapshot refresh after "
+              "add / remove / re-add",
+    "outside": "concurrent writers racing a refreshing reader (the snapshot path does not fit the solver beyond "
+               "capacity 1, see DESIGN.md); capacities > 2; the dynamic_config layer of the iceoryx2 crate",
+    "assumptions": ["core::ptr::copy_nonoverlapping replaced by a byte loop in the snapshot harness (Kani stub)"],
+    "harnesses": [
+        H("c10::c10_add_remove_history", covers=2, timeout=2400, mem_gb=10,
+          what="FixedSizeContainer<(u16,!u16),2>: add/remove/recover history vs model: slots exclusive, data intact, "
+               "(capacity+1)-th add refused, double remove refused, freed slots reusable, no leak",
+          bounds="unwind 8; 3 steps (add/remove), 2 owners"),
+        H("c10::c10_recover_dead_owner", covers=0, timeout=2400, mem_gb=10,
+          what="recover(dead owner) visits and frees exactly the dead owner's entry; the live owner's entry is untouched",
+          bounds="unwind 8; capacity 2, both insertion orders"),
+        H("c10::c10_state_refresh_cap1", covers=0, timeout=3600, mem_gb=30, tiers=("thorough",),
+          what="get_state/update_state on capacity 1: never ghost, exact data, every completed add/remove noticed by "
+               "the next refresh, 'nothing changed' afterwards, slot reuse", bounds="unwind 6; capacity 1"),
+    ],
+    "claimed": False,
+}
+
+PROPS["C15"]["extra"] = [_engine_m("c15_")]
+PROPS["C08"]["extra"] = [_engine_m("c08_")]
+
 # ---- claim texts (MANIFEST.json) --------------------------------------------------------------
 _BMC = ("bounded model checking of the real iceoryx2 code: CBMC decides every assertion for all values of the symbolic "
         "inputs, operation sequences and (where stated) schedules inside the bounds listed in the evidence file; "
@@ -506,7 +561,7 @@ PROPS["C19"].update({
 })
 
 # properties whose checks are still being stabilised are not claimed in MANIFEST.json yet
-NOT_READY = ["C01", "C02", "C03", "C05", "C08", "C09", "C11", "C12", "C13", "C14", "C16", "C19"]
+NOT_READY = ["C01", "C02", "C03", "C05", "C08", "C09", "C10", "C11", "C12", "C13", "C14", "C16", "C19"]
 for _p in NOT_READY:
     if _p in PROPS:
         PROPS[_p]["claimed"] = False
